@@ -8,7 +8,8 @@ From IPC Require Import Codec.
 Import ListNotations.
 
 Inductive sact :=
-| SEmit                                   (* plain data *)
+| SEmit                                   (* plain data; also a raw-bytes send or receive issued from inside: IpcBytesSender::send
+                                             and IpcBytesReceiver::recv bypass serde and never touch the per-thread lists *)
 | STx (e : nat) | SRx (e : nat)           (* embed a sender clone / move a receiver *)
 | SRegion (r : nat)
 | SNest (body : list sact) (propagate : bool)  (* tx.send(inner) from inside serialize(); propagate: `?` on its result *)
